@@ -3,6 +3,7 @@ package world
 import (
 	"fmt"
 	"math/rand"
+	"strings"
 )
 
 // Generate builds a random, well-formed scenario: the initial API state itself is within capacity
@@ -21,7 +22,7 @@ import (
 //	constr    node labels / taints / selectors / affinities / pod (anti-)affinity
 func Generate(r *rand.Rand, profile string) *Scenario {
 	if profile == "unobs" {
-		return generateUnobstructed(r)
+		return otherKindProtected(r, generateUnobstructed(r))
 	}
 	if profile == "topo" {
 		return generateTopology(r)
@@ -35,6 +36,32 @@ func Generate(r *rand.Rand, profile string) *Scenario {
 	if profile == "sat" {
 		return generateSaturation(r)
 	}
+	if profile == "satc" {
+		// the saturation comparison with a conservative multiplier, played as a closed system for 8 cycles (C15)
+		if r.Intn(2) == 0 {
+			return generateDeptOver(r)
+		}
+		sc := generateSaturation(r)
+		sc.Class = "satc"
+		sc.Cfg.Cycles = 8
+		sc.Cfg.SatMult = []int{1200, 1500, 2000, 3000}[r.Intn(4)]
+		for i := range sc.Jobs {
+			sc.Jobs[i].Preempt = 1
+		}
+		for i := range sc.Pods {
+			if sc.Pods[i].Gpu == 0 {
+				sc.Pods[i].Gpu, sc.Pods[i].Cpu = 1, 500
+			}
+		}
+		for i := range sc.Queues {
+			sc.Queues[i].CQ = -1
+		}
+		sc.Normalize()
+		return sc
+	}
+	if profile == "frag" {
+		return generateFrag(r)
+	}
 	if profile == "flat" {
 		return generateFlat(r)
 	}
@@ -45,7 +72,7 @@ func Generate(r *rand.Rand, profile string) *Scenario {
 		return generateQuotaTree(r)
 	}
 	if profile == "unobs2" {
-		return generateUnobstructedMulti(r)
+		return otherKindProtected(r, generateUnobstructedMulti(r))
 	}
 	if profile == "chains" {
 		return generateChains(r)
@@ -563,6 +590,7 @@ func decorate(r *rand.Rand, p *Pod, sc *Scenario) {
 //     queue runs preemptible pods above its deserved quota, or
 //   - (preempt) has strictly higher priority than a preemptible running job of its own queue
 //     (and its queue is at/over its quota so that reclaim does not apply first).
+//
 // Such a job must be bound or nominated within one cycle.
 func generateUnobstructed(r *rand.Rand) *Scenario {
 	pick := func(vs ...int) int { return vs[r.Intn(len(vs))] }
@@ -785,9 +813,13 @@ func generateTopology(r *rand.Rand) *Scenario {
 
 // generateVictims builds full clusters whose running work is made of eligible-looking victims:
 // profile minrt   - min-runtime settings on the department, the leaves or both (reclaim and preempt
-//                   values differ), victims started recently or long ago, elastic and gang victims;
+//
+//	values differ), victims started recently or long ago, elastic and gang victims;
+//
 // profile elastic - elastic victims (min < running), some of their surplus pods already terminating
-//                   (stalled environment), pending claimants needing 1-3 GPUs.
+//
+//	(stalled environment), pending claimants needing 1-3 GPUs.
+//
 // One department, 2-3 sibling leaf queues: victims in an over-quota queue, claimants in an
 // under-quota sibling (reclaim) and/or with higher priority in the victims' queue (preempt).
 func generateVictims(r *rand.Rand, profile string) *Scenario {
@@ -826,6 +858,29 @@ func generateVictims(r *rand.Rand, profile string) *Scenario {
 		}
 		if chance(0.2) {
 			dep.MinRtP = pick(3600, 36000)
+		}
+		// the plugin's defaults (used where no queue on the path says anything) - never the same value for both -
+		// and the reclaim resolve method
+		if chance(0.4) {
+			switch r.Intn(3) {
+			case 0:
+				sc.Cfg.DefMinRtR = pick(3600, 36000)
+			case 1:
+				sc.Cfg.DefMinRtP = pick(3600, 36000)
+			default:
+				sc.Cfg.DefMinRtR, sc.Cfg.DefMinRtP = 36000, 3600
+			}
+			if chance(0.5) {
+				// let the defaults matter: clear what the queues say for one of the two kinds
+				if chance(0.5) {
+					dep.MinRtR, qa.MinRtR = 0, 0
+				} else {
+					dep.MinRtP, qa.MinRtP = 0, 0
+				}
+			}
+		}
+		if chance(0.25) {
+			sc.Cfg.MinRtMethod = "queue"
 		}
 	}
 	sc.Queues = []Queue{dep, qa, qb}
@@ -933,13 +988,14 @@ func generateVictims(r *rand.Rand, profile string) *Scenario {
 }
 
 // generateTight builds small clusters whose capacity is tight for a specific interaction:
-//   bindfail  a gang whose k-th BindRequest creation fails while other pending jobs want exactly the
-//             capacity of its already bound members (Commit's failure path must not give it back)
-//   overhead  pods with init containers larger than their containers plus RuntimeClass overhead on
-//             nodes where only the correct request (max(containers, init) + overhead) decides the fit
-//   nested    a hierarchical pod group (leader under the root, workers in a pod set nested under an
-//             intermediate sub-group) on a node with one idle GPU and one GPU held by a terminating
-//             pod, so that part of the gang can be bound and the rest only nominated
+//
+//	bindfail  a gang whose k-th BindRequest creation fails while other pending jobs want exactly the
+//	          capacity of its already bound members (Commit's failure path must not give it back)
+//	overhead  pods with init containers larger than their containers plus RuntimeClass overhead on
+//	          nodes where only the correct request (max(containers, init) + overhead) decides the fit
+//	nested    a hierarchical pod group (leader under the root, workers in a pod set nested under an
+//	          intermediate sub-group) on a node with one idle GPU and one GPU held by a terminating
+//	          pod, so that part of the gang can be bound and the rest only nominated
 func generateTight(r *rand.Rand, profile string) *Scenario {
 	pick := func(vs ...int) int { return vs[r.Intn(len(vs))] }
 	sc := &Scenario{Class: profile}
@@ -1145,7 +1201,6 @@ func generateReclaim2(r *rand.Rand) *Scenario {
 	return sc
 }
 
-
 // generateSaturation: full clusters where GPU and CPU are both contended and both carry quotas, over
 // 2-3 level queue trees with unevenly over-allocated siblings, so that reclaim statements are decided
 // by the fair-share saturation comparison between the reclaimer's ancestors and the victims' queues
@@ -1235,7 +1290,6 @@ func generateSaturation(r *rand.Rand) *Scenario {
 	return sc
 }
 
-
 // generateFlat: small closed systems of single-pod whole-GPU jobs: 1-2 nodes, 2-3 leaf queues under one or two
 // departments with small quotas and over-quota weights 1-3, jobs of 1-3 GPUs with two priority levels, the cluster
 // (nearly) full and several pending jobs per queue - including jobs too big to ever fit at the head of a queue.
@@ -1317,7 +1371,6 @@ func generateFlat(r *rand.Rand) *Scenario {
 	sc.Normalize()
 	return sc
 }
-
 
 // generateExt: nodes offering MIG instances (nvidia.com/mig-*) and another extended resource, pods
 // requesting one or two instances, running pods within capacity, pending demand above it, unlimited queues
@@ -1413,7 +1466,6 @@ func generateExt(r *rand.Rand) *Scenario {
 	return sc
 }
 
-
 // generateQuotaTree: queue trees whose quotas do not add up - departments with zero quota and zero over-quota
 // weight in one, two or all three resources (so that nothing, or only a rest, reaches them), children whose quotas
 // over-subscribe the parent (valid: the queue webhook does not reject it), limits below quotas, two queue
@@ -1484,7 +1536,6 @@ func generateQuotaTree(r *rand.Rand) *Scenario {
 	sc.Normalize()
 	return sc
 }
-
 
 // generateUnobstructedMulti: the unobstructed class with SEVERAL claimant queues. Uniform full cluster of
 // single-pod 1-GPU jobs; one over-quota victim queue (a leaf, or a department with two leaves) holding most of the
@@ -1617,7 +1668,6 @@ func generateUnobstructedMulti(r *rand.Rand) *Scenario {
 	return sc
 }
 
-
 // generateChains: closed systems whose queue tree is 2-3 separate chains (org -> dept -> team, one leaf per
 // chain, depth 1-3) with the same or slightly different quotas along a chain, so that two leaves diverge at the
 // top of the tree; one or two nodes, full or nearly full of single-pod jobs of 1-3 GPUs, several pending jobs per
@@ -1690,7 +1740,6 @@ func generateChains(r *rand.Rand) *Scenario {
 	sc.Normalize()
 	return sc
 }
-
 
 // generateHetero: nodes whose GPU devices differ in memory (80 000 / 40 000 / 16 000 MiB) and pods that ask for GPU
 // MEMORY: the same request is 0.15 of a device on one node and 0.75 on another, and that is what the queues are
@@ -1775,7 +1824,6 @@ func generateHetero(r *rand.Rand) *Scenario {
 	return sc
 }
 
-
 // generateNpFs: reclaim by NON-preemptible jobs around the fair share. One or two departments, three leaf queues with
 // small quotas and over-quota weights 0-2, the cluster full of preemptible 1-GPU pods spread over two of them (one
 // at or near its fair share, the other well above it), pending 1-GPU jobs: a non-preemptible one in the queue that
@@ -1843,7 +1891,6 @@ func generateNpFs(r *rand.Rand) *Scenario {
 	sc.Normalize()
 	return sc
 }
-
 
 // generateAbandon: the solver's node-by-node attempts. Running gangs with one pod on each of several nodes next to
 // single-pod jobs that fill the nodes (all of an over-quota queue, or of lower priority), and a claimant that needs
@@ -1962,5 +2009,185 @@ func generateAbandon(r *rand.Rand) *Scenario {
 		sc.Pods = append(sc.Pods, Pod{Name: fmt.Sprintf("j%d-p1", k), Job: k, Cpu: 500, Mem: 500, Gpu: size, Phase: "P", Node: 0})
 	}
 	sc.Normalize()
+	return sc
+}
+
+// generateFrag: fragmentation - consolidation territory. 2-4 nodes of 3-5 GPUs, running pods of 2 (3) GPUs that leave
+// one or two GPUs idle on every node, so that a waiting pod fits nowhere although the cluster has enough idle GPUs;
+// elastic jobs running above their minimum, gangs and single pods, everything of one or two queues within quota and of
+// one priority (nobody is entitled to anybody's GPUs: only consolidation can help, and it may only move pods).
+// Closed, 8 cycles, consolidation on.
+func generateFrag(r *rand.Rand) *Scenario {
+	pick := func(vs ...int) int { return vs[r.Intn(len(vs))] }
+	sc := &Scenario{Class: "frag"}
+	sc.Cfg = Cfg{Placement: []string{"binpack", "spread"}[r.Intn(2)], Consolidation: 1, Signatures: pick(0, 1),
+		ConsReclaim: pick(0, 1), SatMult: 1000, Cycles: pick(2, 8), Env: "closed", FullHier: 1}
+	nn := pick(2, 3, 3, 4)
+	g := pick(3, 3, 4, 5)
+	for i := 0; i < nn; i++ {
+		sc.Nodes = append(sc.Nodes, Node{Name: fmt.Sprintf("n%d", i+1), Cpu: 32000, Mem: 64000, Pods: 110, Gpus: g, GpuMem: 40000, Ready: 1})
+	}
+	tot := nn * g
+	sc.Queues = []Queue{{Name: "d1", Parent: 0, Prio: 100, GQ: -1, GL: -1, GW: 1, CQ: -1, CL: -1, MQ: -1, ML: -1},
+		{Name: "q1", Parent: 1, Prio: 100, GQ: tot * 1000, GL: -1, GW: 1, CQ: -1, CL: -1, MQ: -1, ML: -1}}
+	nq := 1
+	if r.Intn(3) == 0 {
+		sc.Queues = append(sc.Queues, Queue{Name: "q2", Parent: 1, Prio: 100, GQ: tot * 1000, GL: -1, GW: 1, CQ: -1, CL: -1, MQ: -1, ML: -1})
+		nq = 2
+	}
+	size := 2
+	if g == 5 && r.Intn(2) == 0 {
+		size = 3
+	}
+	// slots: running pods of 1-3 GPUs fill every node up to an idle rest of 1 (sometimes 2) GPUs, smaller than what waits
+	type slot struct{ node, size int }
+	bySize := map[int][]slot{}
+	for ni := 0; ni < nn; ni++ {
+		rest := pick(1, 1, 1, 2)
+		if rest >= size {
+			rest = size - 1
+		}
+		free := g
+		for free > rest {
+			sz := pick(1, 2, 2, size)
+			if sz > free-rest {
+				sz = free - rest
+			}
+			bySize[sz] = append(bySize[sz], slot{ni + 1, sz})
+			free -= sz
+		}
+	}
+	k := 0
+	for sz := 1; sz <= 3; sz++ {
+		slots := bySize[sz]
+		r.Shuffle(len(slots), func(i, j int) { slots[i], slots[j] = slots[j], slots[i] })
+		si := 0
+		for si < len(slots) {
+			k++
+			n := pick(1, 1, 2, 2, 3)
+			if n > len(slots)-si {
+				n = len(slots) - si
+			}
+			pendingExtra := 0
+			min := n
+			switch pick(0, 1, 1, 2) {
+			case 1: // elastic, running above its minimum
+				if n > 1 {
+					min = 1 + r.Intn(n-1)
+				}
+			case 2: // elastic with a pod still waiting
+				min = 1 + r.Intn(n)
+				if sz >= 2 {
+					pendingExtra = 1
+				}
+			}
+			sc.Jobs = append(sc.Jobs, Job{Name: fmt.Sprintf("j%d", k), Queue: 2 + r.Intn(nq), Prio: 50, Preempt: 1, Min: min, Age: 1200 + 60*r.Intn(60), LastStart: 36000})
+			for i := 0; i < n; i++ {
+				sc.Pods = append(sc.Pods, Pod{Name: fmt.Sprintf("j%d-p%d", k, i+1), Job: k, Cpu: 500, Mem: 500, Gpu: sz, Phase: "R", Node: slots[si].node})
+				si++
+			}
+			for i := 0; i < pendingExtra; i++ {
+				sc.Pods = append(sc.Pods, Pod{Name: fmt.Sprintf("j%d-p%d", k, n+i+1), Job: k, Cpu: 500, Mem: 500, Gpu: sz, Phase: "P"})
+			}
+		}
+	}
+	// waiting pods that fit nowhere as the cluster stands
+	for i := 0; i < pick(0, 1, 1, 2); i++ {
+		k++
+		sc.Jobs = append(sc.Jobs, Job{Name: fmt.Sprintf("j%d", k), Queue: 2 + r.Intn(nq), Prio: 50, Preempt: 1, Min: 1, Age: 300 + 60*i, LastStart: -1})
+		sc.Pods = append(sc.Pods, Pod{Name: fmt.Sprintf("j%d-p1", k), Job: k, Cpu: 500, Mem: 500, Gpu: pick(size, size, 2), Phase: "P"})
+	}
+	sc.Normalize()
+	return sc
+}
+
+// generateDeptOver (half of profile satc): two (three) departments that share the cluster by quota; one runs above its
+// quota, in the other a team runs above its own quota while a sibling team within its quota has work waiting: the
+// waiting job's team is entitled at its own level, whether it may take from the other department is decided by the
+// saturation comparison one level up (multiplier above 1). Single-pod jobs of 1-2 GPUs, closed, 8 cycles.
+func generateDeptOver(r *rand.Rand) *Scenario {
+	pick := func(vs ...int) int { return vs[r.Intn(len(vs))] }
+	sc := &Scenario{Class: "satc"}
+	sc.Cfg = Cfg{Placement: []string{"binpack", "spread"}[r.Intn(2)], Consolidation: pick(0, 1), Signatures: pick(0, 1),
+		ConsReclaim: pick(0, 0, 1), SatMult: pick(1200, 1500, 2000, 3000), Cycles: 8, Env: "closed", FullHier: 1}
+	half := pick(3, 4, 4, 5)
+	tot := 2 * half
+	nn := pick(1, 2)
+	for i := 0; i < nn; i++ {
+		sc.Nodes = append(sc.Nodes, Node{Name: fmt.Sprintf("n%d", i+1), Cpu: 32000, Mem: 64000, Pods: 110, Gpus: tot / nn, GpuMem: 40000, Ready: 1})
+	}
+	q := func(name string, parent, gq int) int {
+		sc.Queues = append(sc.Queues, Queue{Name: name, Parent: parent, Prio: 100, GQ: gq * 1000, GL: -1, GW: pick(1, 1, 2), CQ: -1, CL: -1, MQ: -1, ML: -1})
+		return len(sc.Queues)
+	}
+	da := q("da", 0, half)
+	a0 := q("a0", da, half)
+	db := q("db", 0, half)
+	q0 := 1 + r.Intn(half-1)
+	b0 := q("b0", db, q0)
+	b1 := q("b1", db, half-q0)
+	over := pick(1, 1, 2)
+	free := make([]int, nn)
+	for i := range free {
+		free[i] = tot / nn
+	}
+	k := 0
+	run := func(leaf, gpus int) {
+		for gpus > 0 {
+			sz := pick(1, 1, 2)
+			if sz > gpus {
+				sz = gpus
+			}
+			ni := -1
+			for i := range free {
+				if free[i] >= sz {
+					ni = i
+					break
+				}
+			}
+			if ni < 0 {
+				sz = 1
+				for i := range free {
+					if free[i] >= 1 {
+						ni = i
+						break
+					}
+				}
+				if ni < 0 {
+					return
+				}
+			}
+			k++
+			sc.Jobs = append(sc.Jobs, Job{Name: fmt.Sprintf("j%d", k), Queue: leaf, Prio: 50, Preempt: 1, Min: 1, Age: 7200 + 60*r.Intn(60), LastStart: 36000})
+			sc.Pods = append(sc.Pods, Pod{Name: fmt.Sprintf("j%d-p1", k), Job: k, Cpu: 500, Mem: 500, Gpu: sz, Phase: "R", Node: ni + 1})
+			free[ni] -= sz
+			gpus -= sz
+		}
+	}
+	run(a0, half+over)
+	run(b0, half-over)
+	for i := 0; i < pick(1, 1, 2); i++ {
+		k++
+		sc.Jobs = append(sc.Jobs, Job{Name: fmt.Sprintf("j%d", k), Queue: pick(b1, b1, b1, b0, a0), Prio: 50, Preempt: 1, Min: 1, Age: 600 + 60*i, LastStart: -1})
+		sc.Pods = append(sc.Pods, Pod{Name: fmt.Sprintf("j%d-p1", k), Job: k, Cpu: 500, Mem: 500, Gpu: pick(1, 2, 2), Phase: "P"})
+	}
+	sc.Normalize()
+	return sc
+}
+
+// otherKindProtected: in a third of the unobstructed scenarios the minruntime plugin protects running jobs (they run
+// for 10 hours, the default is 100) against the OTHER kind of eviction than the one the scenario expects: a default
+// preempt min-runtime in the reclaim scenarios, a default reclaim min-runtime in the preempt scenarios. The expected
+// progress must not depend on it.
+func otherKindProtected(r *rand.Rand, sc *Scenario) *Scenario {
+	if r.Intn(3) != 0 {
+		return sc
+	}
+	switch {
+	case strings.HasSuffix(sc.Class, "-reclaim"):
+		sc.Cfg.DefMinRtP = 360000
+	case strings.HasSuffix(sc.Class, "-preempt"):
+		sc.Cfg.DefMinRtR = 360000
+	}
 	return sc
 }
